@@ -510,7 +510,8 @@ HCPcrle_write(accrec_t *access_rec, int32 length, const void *data)
     /*  1 - append onto the end */
     /*  2 - start at the beginning and rewrite (at least) the whole dataset */
     if ((info->length != rle_info->offset) &&
-        (rle_info->offset != 0 && length <= (info->length - rle_info->offset)))
+        ((rle_info->offset != 0 && length <= (info->length - rle_info->offset)) ||
+         (rle_info->offset == 0 && length < info->length)))
         HRETURN_ERROR(DFE_UNSUPPORTED, FAIL);
 
     rle_info->last_op = DFACC_WRITE; /* the buffer now holds encoder output */
